@@ -5,17 +5,19 @@ most n nodes that has exactly one raising leaf, i.e. every L-term with the
 raising leaf substituted at each leaf position in turn, rendered over several
 lines with one subform per line (mc/ref/tb_render.py: the start line of every
 form differs from that of its parent, children and siblings), the raising
-leaf in each of 17 shapes:
+leaf in each of 23 shapes:
   - read from the source text: a call of the plain function `boom` that raises
     a marker exception (one line; split over lines; as a method call `o.boom`;
     as `(.boom o ..)`), `(raise (Marker i))`, a division by zero, a failing
-    subscript, an unbound name, a missing attribute;
+    subscript, an unbound name, a missing attribute, an f-string field, an
+    augmented assignment (one / several operands) whose in-place operation raises;
   - as the ARGUMENT of a user macro that returns it / unquotes it / splices it
     / passes it on to another macro (the raising form keeps its own position);
   - produced by a user macro's TEMPLATE (the raising form has no source text of
     its own: the form of the source that raises is the macro call, whose line
     span is demanded), including a one-off macro whose template is the
-    raising leaf's whole parent form;
+    raising leaf's whole parent form, and a macro that returns a model object
+    created once (a quoted parameter default) and is expanded at two places;
 and the whole term as the argument of each of five user macros; at module level
 (boom-free function context) and as the body of a function called later.
 Thorough adds all one-hole contexts of depth 3 around the leaf.
@@ -45,7 +47,7 @@ LEVEL_TEXT = ("Every program of the generated language up to the size bound, wit
               "that exists only in a macro template: within the macro call's span). A reference interpreter written from the "
               "documentation decides whether the form is reached, so a silent run cannot pass for a positioned one. Exhaustive within "
               "the bound: every composition of up to n constructs (statement-lifted forms, comprehensions, functions called later, "
-              "try/with/loops) around the raising form is covered, in 17 leaf shapes and 6 whole-term macro wrappers.")
+              "try/with/loops) around the raising form is covered, in 23 leaf shapes and 6 whole-term macro wrappers.")
 RULE = ("L-terms enumerated by node count then constructor order, kept when they contain exactly one raising leaf; a case = "
         "(term, module-or-function wrapper, leaf shape, whole-term macro wrapper); contexts x the raising leaf likewise (thorough); "
         "non-trivial = the reference interpreter says the raising leaf is reached AND (the term has a statement-producing constructor "
@@ -137,6 +139,8 @@ _fileno = [0]
 def _is_target(e, kind, site):
     if kind in ("call", "raise"):
         return isinstance(e, Marker) and e.args == (site,)
+    if kind == "shared":
+        return isinstance(e, NameError) and getattr(e, "name", None) == "nosuch_shared"
     if kind == "div":
         return isinstance(e, ZeroDivisionError)
     if kind == "index":
@@ -162,7 +166,8 @@ def macro_fn(deftext):
     """The macro function of a `(defmacro name ...)` text, compiled once per worker
     in a library module (a user macro made available as by `require`)."""
     fn = _MACRO_CACHE.get(deftext)
-    if fn is None:
+    stateful = deftext.split()[1] in R.STATEFUL_MACROS
+    if fn is None or stateful:
         import hy
         from mc import hyside
         if not _LIB:
@@ -235,8 +240,14 @@ def run_impl(text, kind, site, macros=()):
     class O:
         pass
 
+    class InPlace:
+        def __iadd__(self, v):
+            tick()
+            raise Marker(v)
+
     o = O()
     o.boom = boom
+    o.acc = InPlace()
     mod.log, mod.boom, mod.f2, mod.cm, mod.o, mod.Marker = log, boom, f2, cm, o, Marker
     if macros:
         mod._hy_macros = {hy.mangle(d.split()[1]): macro_fn(d) for d in macros}
@@ -373,6 +384,12 @@ def check_case(acc, term, w_fn, shape, top, record_sample=False):
         acc.unspecified += 1
         acc.outcome("unspecified-order:sibling-diverges-first")
         return
+    if r["outcome"] in ("fuel", "timeout") and shape == "tmpl_shared_atom" and not r["lines"]:
+        # the expansion is a bare name; Hy does not evaluate a bare name in statement position
+        # (see below), so a loop that only this raise would leave never ends
+        acc.unspecified += 1
+        acc.outcome("unspecified:bare-name-statement-not-evaluated")
+        return
     if r["outcome"] in ("fuel", "timeout"):
         acc.outcome("impl-" + r["outcome"])
         bad("nontermination", f"model outcome {m_out}, implementation ran out of {r['outcome']}")
@@ -394,7 +411,7 @@ def check_case(acc, term, w_fn, shape, top, record_sample=False):
         acc.unspecified += 1
         acc.outcome("unspecified-order:" + ("raised,line-ok" if impl_reached else "not-raised"))
         return
-    if reached and not impl_reached and rd.exc_kind == "name":
+    if reached and not impl_reached and (rd.exc_kind == "name" or shape == "tmpl_shared_atom"):
         # Hy discards a bare name that follows statements in statement position
         # (Result.expr_as_stmt: "they can't have any side effect"); the documentation
         # does not say whether such a name is evaluated
